@@ -216,6 +216,30 @@ PROPS['C08'] = dict(
                       'signed', 'unsigned'],
 )
 
+c09 = B('c09_quote', 'c09_quote.cpp', 'asan')
+c09p = B('c09_quote', 'c09_quote.cpp', 'prod')
+c09w = B('c09_quote', 'c09_quote.cpp', 'wsm')
+PROPS['C09'] = dict(
+    title='String quoting is exact for all bytes and never strays outside its buffers',
+    units=[
+        U(c09p, 'prng', 700000, 40000000, wq=4, wt=8, label='c09-prod'),
+        U(c09, 'prng', 250000, 10000000, wq=3, wt=4, label='c09-asan'),
+        U(c09w, 'prng', 400000, 10000000, wq=2, wt=2, label='c09-westmere'),
+        U(c09, 'rc', 4000, 100000, wq=1, wt=2, label='c09-rc'),
+    ],
+    rule='cases: byte strings of length 0..200 (+500, 1000), every length around the 16/32-byte block sizes; contents: one '
+         'arbitrary byte at one offset 0..69 of a plain string, dense/sparse mixes of quote, backslash, control and high bytes, '
+         'all-escape strings (6x worst case), uniformly random bytes; source placement: heap block of exact size, ending on the '
+         'last byte before a PROT_NONE page, inside a page with 1..4095 bytes after it, starting right after a PROT_NONE page; '
+         'destination: exactly 6*len+32+3 bytes ending at a PROT_NONE page; production (g++ -O2, haswell and westmere) and '
+         'sanitizer builds. Oracle: scalar matcher from the statement (verbatim bytes, escapes decode to the byte, quotes '
+         'around), emitted length <= 6*len+2, no fault, output unchanged when the bytes after the string are replaced by '
+         'quotes/backslashes/control bytes, Serialize of a string node gives the same bytes. Non-trivial: >= 1 escaped byte, '
+         'or len%32 != 0 with the source within 64 bytes of a page end.',
+    min_evaluations=dict(quick=500000, thorough=10000000),
+    required_classes=['place:page-end', 'place:heap-exact', 'place:in-page', 'place:page-start', 'class:all-escapes', 'class:single-byte'],
+)
+
 
 def tool_versions():
     out = {}
